@@ -53,7 +53,9 @@ impl<T, E> Stream for ObservableStream<T, E> {
           Poll::Ready(None)
         }
       },
-      None => Poll::Pending,
+      // every sender is gone (the source failed or was dropped): nothing can
+      // arrive any more, so the stream ends instead of pending forever.
+      None => Poll::Ready(None),
     }
   }
 }
